@@ -101,3 +101,58 @@ CLAIMS["C17"] = {
             "freedom assumed; direct user calls of memoised functions are "
             "outside the escape rule.",
 }
+
+CLAIMS["C15"] = {
+    "technique": "exhaustive order-type evaluation of the crossing rule read "
+                 "from the .pyx source; rational-function comparison of the "
+                 "edge abscissa; role tracking of x/y columns through the "
+                 "wrapper chain; reader/writer key-table agreement",
+    "text": "The compiled extension cannot be rebuilt in this sandbox, so an "
+            "edit of geometry.pyx/_pnpoly.pyx is invisible to every runtime "
+            "test; reading the source is the only sensitive check. The "
+            "straddle test is decided on all 13 weak orderings of (y_i, y_j, "
+            "y), the abscissa as an exact rational function, the loop "
+            "visits each cyclic edge once; x/y roles are followed through "
+            "all wrappers, inversion iff `inverted`; every key `save` writes "
+            "is dispatched by `_load` to the same attribute and floats keep "
+            ">= 17 significant digits.",
+    "note": "Floating-point evaluation of the abscissa for points within "
+            "rounding distance of an edge, and uniqueness of identifiers "
+            "across files, are not decided. The shipped binaries are assumed "
+            "to be built from the .pyx sources in the tree.",
+}
+CLAIMS["C16"] = {
+    "technique": "CFG dominance of every random draw by a literal re-seeding; "
+                 "linear bound prover for choice(size, replace=False) against "
+                 "its pool; mask/data agreement def-use rules on the .pyx "
+                 "source",
+    "text": "Reproducibility and no-duplication hold for every input iff "
+            "every np.random draw is dominated by a reset to a literal seed "
+            "with no intervening draw and every choice has replace=False; "
+            "the sample-size request must be provably bounded by its pool "
+            "from the enclosing guards; the returned mask must be the one "
+            "that indexed the returned data; zero data range must be "
+            "guarded. Two genuine defects in the .pyx (F16a, F16b) are "
+            "recorded as known findings because the binary cannot be "
+            "rebuilt here.",
+    "note": "Does not decide that the number returned equals the request "
+            "for arbitrary distributions; the grid thinning itself is not "
+            "modelled. Binary assumed built from the .pyx in the tree.",
+}
+CLAIMS["C05"] = {
+    "technique": "interprocedural freshness (ownership) analysis of every "
+                 "in-place operation; monomial normal forms of the scaling "
+                 "laws; sibling comparison of the two computation routes; "
+                 "call-shape rule for the interpolation",
+    "text": "Decided structurally: no caller array or registered table is "
+            "mutated (every in-place op acts on a fresh allocation), the "
+            "scale laws are the documented monomials (area ~ w^2, volume ~ "
+            "w^3, E ~ Q*eta/w^3), the per-event route back-scales with the "
+            "inverse of its forward scaling and agrees entry by entry with "
+            "the global route, pixelation correction precedes scaling, "
+            "griddata is linear without fill_value/rescale and "
+            "extrapolation is off by default.",
+    "note": "Numerical agreement with an interpolation oracle, NaN exactly "
+            "outside the LUT support (scipy), viscosity models and "
+            "isoelastics are not decided.",
+}
